@@ -31,8 +31,8 @@ Theorem C15_preload_transparent :
 Proof. exact preload_transparent. Qed.
 
 (* 2. Reuse: any number of successive inversions sharing the Preloads object, each reading any attributes in any
-      order, return what the inversion without preloads returns; no slot other than the two arrays the w-tilde class
-      completes in place (data_vector_mapper, curvature_matrix_mapper_diag) is ever modified. *)
+      order, return what the inversion without preloads returns; no slot other than data_vector_mapper (whose function
+      rows the w-tilde class assigns in place) is ever modified. *)
 Theorem C15_reuse_any_history :
   forall (T : Type) (K : kernels T) (inp : input T) (p : pstore T) (h : list (list qty)),
     factory_slots_neutral inp p ->
@@ -57,7 +57,7 @@ Theorem C15_every_read_is_specified :
     fst (run_history K inp code p h) = map (fun qs => Ok (map (pure K inp mode) qs)) h.
 Proof. exact every_read_is_specified. Qed.
 
-(* 5. The arrays completed in place remain valid preloads for ever (so a later inversion may start from them). *)
+(* 5. The array completed in place remains a valid preload for ever (so a later inversion may start from it). *)
 Theorem C15_store_stays_consistent :
   forall (T : Type) (K : kernels T) (inp : input T) (p : pstore T) (h : list (list qty)) (mode : option (wtilde T)),
     make_inversion K inp p = Ok mode -> fresh_store K inp mode p -> laws_for K inp mode p ->
